@@ -353,6 +353,119 @@ def run(ctx):
         ctx.ob("R09.4", "bundle_foreach: append@%s" % a.line, esc is None, site=a.where(),
                what="bundle_foreach: bytes appended at %s reach the functor call without a terminating NUL" % a.where())
 
+    # ---------------- R09.12: where the enabling port is looked for
+    ctx.rule("R09.12", "ENABLER-PLACE: port_is_enabled looks for the enabling port below the sub-tree exactly when the 'enabled by' value begins with the sub-tree's own name including its '/' (`osc/` enabled by `osc/on`), and among the siblings otherwise (`osc/` enabled by `osc_on`, `p1/` by `p10`): the decision, evaluated on pairs of names")
+    fpe = u.function("port_is_enabled")
+    flag12 = None
+    for x in A.walk(u.body(fpe)):
+        if x.get("kind") == "VarDecl" and "bool" in (A.qtype(x) or "") and A.kids(x):
+            used = [y for y in A.walk(u.body(fpe)) if y.get("kind") == "ConditionalOperator" and A.ref_id(A.kids(y)[0]) == x["id"]]
+            if used:
+                flag12 = x
+                break
+    ctx.require(flag12 is not None, "R09.12: the flag that selects the sub-tree's ports was not found in port_is_enabled")
+    holder12 = None
+    for x in A.walk(u.body(fpe)):
+        if x.get("kind") == "CompoundStmt" and any(s_.get("kind") == "DeclStmt" and any(d_.get("id") == flag12["id"] for d_ in A.kids(s_)) for s_ in A.kids(x)):
+            holder12 = x
+    ctx.require(holder12 is not None, "R09.12: the block declaring the flag was not found")
+    stmts12 = []
+    for s_ in A.kids(holder12):
+        stmts12.append(s_)
+        if s_.get("kind") == "DeclStmt" and any(d_.get("id") == flag12["id"] for d_ in A.kids(s_)):
+            break
+    pairs12 = [("osc/", "osc/on", True), ("osc/", "osc_on", False), ("osc/", "oscon", False), ("p1/", "p10", False), ("p1/", "p1/enabled", True), ("a/", "b", False),
+               ("lfo/", "mod_on", False), ("voice#8/", "voice#8/Enabled", True), ("voice#8/", "voice_on", False), ("ab/", "a", False), ("ab/", "ab", False), ("x/", "x/", True)]
+    bad12 = []
+    for nm, en, want in pairs12:
+        NB, EB = 4096, 8192
+
+        def deref12(a_, n_, nm=nm, en=en):
+            if NB <= a_ <= NB + len(nm):
+                return ord(nm[a_ - NB]) if a_ - NB < len(nm) else 0
+            if EB <= a_ <= EB + len(en):
+                return ord(en[a_ - EB]) if a_ - EB < len(en) else 0
+            raise FD.Unknown("read outside the two names", n_)
+
+        def txt12(v_, nm=nm, en=en):
+            if isinstance(v_, str):
+                return v_
+            if NB <= v_ <= NB + len(nm):
+                return nm[v_ - NB:]
+            if EB <= v_ <= EB + len(en):
+                return en[v_ - EB:]
+            raise FD.Unknown("string operand %r" % (v_,))
+        h12 = {}
+
+        def hook12(n_, ev_):
+            k_ = n_.get("kind")
+            if k_ == "MemberExpr" and n_.get("name") == "name":
+                return NB
+            if k_ == "CXXOperatorCallExpr" and any(A.string_literal(y) == "enabled by" for y in A.walk(n_)):
+                return EB
+            if k_ == "StringLiteral":
+                return A.string_literal(n_)
+            if k_ == "ImplicitCastExpr" and n_.get("castKind") == "ArrayToPointerDecay" and A.string_literal(A.kids(n_)[0]) is not None:
+                return A.string_literal(A.kids(n_)[0])
+            return NotImplemented
+
+        def call12(fnm, vals, n_):
+            if fnm == "strlen":
+                return len(txt12(vals[0]))
+            if fnm in ("strncmp", "memcmp"):
+                a_, b_ = txt12(vals[0])[:vals[2]], txt12(vals[1])[:vals[2]]
+                return (a_ > b_) - (a_ < b_)
+            if fnm == "strcmp":
+                a_, b_ = txt12(vals[0]), txt12(vals[1])
+                return (a_ > b_) - (a_ < b_)
+            if fnm in ("strchr",):
+                t_ = txt12(vals[0])
+                i_ = t_.find(chr(vals[1])) if vals[1] else len(t_)
+                return vals[0] + i_ if i_ >= 0 else 0
+            if fnm in ("strcspn", "strspn"):
+                t_, set_ = txt12(vals[0]), txt12(vals[1])
+                i_ = 0
+                while i_ < len(t_) and ((t_[i_] in set_) == (fnm == "strspn")):
+                    i_ += 1
+                return i_
+            fns_ = [f_ for f_ in u.functions.get(fnm, []) if u.body(f_) is not None]
+            if len(fns_) == 1:
+                return h12["ev"].call_function(u, fns_[0], vals)
+            raise FD.Unknown("call to %s" % fnm, n_)
+        env12 = {}
+        # locals of the function declared before the block (the 'enabled by' value): bound to the probe
+        for y in A.walk(u.body(fpe)):
+            if y.get("kind") == "VarDecl" and A.kids(y) and any(A.string_literal(z) == "enabled by" for z in A.walk(y)):
+                env12[y["id"]] = EB
+        ev12 = FD.Eval(env=env12, deref=deref12, node_hook=hook12, call=call12, max_steps=2000)
+        h12["ev"] = ev12
+        # only the statements the flag depends on are run (backward slice over the locals of the block)
+        need12 = {y["referencedDecl"]["id"] for y in A.walk(flag12) if y.get("kind") == "DeclRefExpr" and (y.get("referencedDecl") or {}).get("kind") == "VarDecl"}
+        for _ in range(6):
+            for s_ in stmts12[:-1]:
+                declared = {d_.get("id") for d_ in A.kids(s_)} if s_.get("kind") == "DeclStmt" else set()
+                written = {A.ref_id(A.kids(y)[0]) for y in A.walk(s_) if (y.get("kind") in ("BinaryOperator", "CompoundAssignOperator") and y.get("opcode", "").endswith("=") and y.get("opcode") not in ("==", "!=", "<=", ">=")) or
+                           (y.get("kind") == "UnaryOperator" and y.get("opcode") in ("++", "--"))}
+                if (declared | written) & need12:
+                    need12 |= {y["referencedDecl"]["id"] for y in A.walk(s_) if y.get("kind") == "DeclRefExpr" and (y.get("referencedDecl") or {}).get("kind") == "VarDecl"}
+        try:
+            for s_ in stmts12:
+                if s_.get("kind") == "DeclStmt" and any(d_.get("id") in env12 for d_ in A.kids(s_)):
+                    continue
+                declared = {d_.get("id") for d_ in A.kids(s_)} if s_.get("kind") == "DeclStmt" else set()
+                written = {A.ref_id(A.kids(y)[0]) for y in A.walk(s_) if (y.get("kind") in ("BinaryOperator", "CompoundAssignOperator") and y.get("opcode", "").endswith("=") and y.get("opcode") not in ("==", "!=", "<=", ">=")) or
+                           (y.get("kind") == "UnaryOperator" and y.get("opcode") in ("++", "--"))}
+                if s_ is not stmts12[-1] and not ((declared | written) & need12):
+                    continue
+                ev12.run(s_)
+        except FD.Unknown as e:
+            raise AnalysisBroken("R09.12: the sub-tree decision of port_is_enabled is not evaluable on (%r, %r): %s" % (nm, en, e))
+        got12 = bool(ev12.env.get(flag12["id"]))
+        if got12 != want:
+            bad12.append({"port": nm, "enabled_by": en, "looks_below_the_sub_tree": got12, "expected": want})
+    ctx.ob("R09.12", "port_is_enabled: sub-tree or sibling", not bad12, site=A.where(flag12), detail={"pairs": len(pairs12), "mismatches": bad12[:5]},
+           what="port_is_enabled decides where to look for the enabling port wrongly for %s: a sibling toggle whose name merely begins like the sub-tree's is looked up inside the sub-tree" % [(b_["port"], b_["enabled_by"]) for b_ in bad12[:4]])
+
     # ---------------- R09.7
     ctx.rule("R09.7", "ENABLER-ONCE: port_is_enabled applies the walker to the enabling toggle exactly when the port is disabled and ordinary traversal would not reach the toggle, i.e. when it lies below the port it disables - inside the sub-tree (`subport`) or, for a sub-tree's own `self:` entry, always (the path is then relative to the sub-tree itself): the guard of the walker call, evaluated over all truth values, is !enabled && (subport || !relative_to_parent)")
     upp = ctx.ast("ports.cpp")
